@@ -19,7 +19,7 @@ CHECK = SessionCheck(
     prop='C02',
     profile=profile,
     monitors=lambda: [Registry(), MatchMonitor(('C02',))],
-    tiers={'quick': 1500, 'thorough': 150_000},
+    tiers={'quick': 1500, 'thorough': 60_000},
     nontrivial=lambda r: r['counters'].get('resting_fills', 0) > 0,
     rule=('one seed -> one backtest session (step or fast simulator, spot/futures, 1-2 symbols) on a price lattice with '
           'gaps/flats/ties; at every matching call the minute (chunk) range is computed from the harness copy of the '
